@@ -954,6 +954,25 @@ func callBuiltin(caller *frame, callpos token.Pos, fn *ssa.Builtin, args []value
 		if len(args) == 1 {
 			return args[0]
 		}
+		if rb, ok := args[0].(ropeBytes); ok {
+			// append(<bytes that are still a rope>, more bytes...): stay a rope
+			var tail value
+			switch t := args[1].(type) {
+			case string, symStr:
+				tail = t
+			case ropeBytes:
+				tail = t.s
+			case []value:
+				bs := make([]byte, len(t))
+				for k, e := range t {
+					bs[k] = e.(uint8)
+				}
+				tail = string(bs)
+			default:
+				panic(engineError{fmt.Sprintf("append to rope bytes: %T", args[1])})
+			}
+			return ropeBytes{concatStr(rb.s, tail)}
+		}
 		if ss, ok := args[1].(symStr); ok {
 			args[1] = caller.i.ex.concStr(ss)
 		}
@@ -1020,6 +1039,9 @@ func callBuiltin(caller *frame, callpos token.Pos, fn *ssa.Builtin, args []value
 		case symStr:
 			return symStrLen(x)
 		case ropeBytes:
+			if ss, ok := x.s.(symStr); ok && allFiniteDomains(ss) {
+				return len(caller.i.ex.concStr(ss)) // small pool of contents: decide which one (fork) rather than carry a symbolic length
+			}
 			return ropeLen(x.s)
 		case *schan:
 			if x == nil {
@@ -1516,4 +1538,14 @@ func fandbits[F floaty](x, y F) F {
 		*(*uint64)(unsafe.Pointer(&x)) &= *(*uint64)(unsafe.Pointer(&y))
 	}
 	return x
+}
+
+// allFiniteDomains: every atom of the rope is a string atom with a finite domain (verifOneOf)
+func allFiniteDomains(s symStr) bool {
+	for _, p := range s.parts {
+		if p.atom != nil && (p.atom.isInt || p.atom.dom == nil) {
+			return false
+		}
+	}
+	return true
 }
